@@ -794,7 +794,7 @@ func (x *Exec) newSlice(st *State, et types.Type, n, c string, zeroed bool) V {
 	key := heapKeySlice(et)
 	if zeroed {
 		sarr := x.heapGet(st, key, et)
-		x.heapSet(st, key, et, "(store "+sarr+" "+base+" ((as const (Array Int "+x.s.sortOf(et)+")) "+x.s.zero(et)+"))")
+		x.heapSet(st, key, et, "(store "+sarr+" "+base+" "+x.s.constArr("(Array Int "+x.s.sortOf(et)+")", x.s.zero(et))+")")
 	}
 	st2 := types.NewSlice(et)
 	return V{T: st2, S: x.define("sl", "Slice", "(mk_slice "+base+" 0 "+n+" "+c+")")}
